@@ -9,6 +9,11 @@
 #pragma once
 #include "ref.hpp"
 
+#include <setjmp.h>
+#include <signal.h>
+#include <sys/mman.h>
+#include <unistd.h>
+
 #ifndef VERIF_FAMS
 #define VERIF_FAMS 1
 #endif
@@ -111,19 +116,72 @@ namespace PL
       return n[ k ];
    }
 
-   // exact-size, terminator-less copy of the input bytes
+   // exact-size, terminator-less copy of the input bytes.  buf_mode 0: heap; 1: the byte after the input is in a
+   // PROT_NONE page (end-aligned); 2: the byte before the input is in a PROT_NONE page (begin-aligned)  (DESIGN §2.6)
+   inline int buf_mode = 0;
+   struct GuardRegion
+   {
+      char* base = nullptr;
+      size_t page = 4096;
+      GuardRegion()
+      {
+         page = size_t( sysconf( _SC_PAGESIZE ) );
+         base = static_cast< char* >( mmap( nullptr, 3 * page, PROT_READ | PROT_WRITE, MAP_PRIVATE | MAP_ANONYMOUS, -1, 0 ) );
+         if( base == MAP_FAILED ) abort();
+         mprotect( base, page, PROT_NONE );
+         mprotect( base + 2 * page, page, PROT_NONE );
+      }
+   };
+   inline GuardRegion& guard_region()
+   {
+      static GuardRegion g;
+      return g;
+   }
    struct Buf
    {
       char* p = nullptr;
       size_t n = 0;
+      bool heap = false;
       explicit Buf( const std::string& s )
-         : p( static_cast< char* >( malloc( s.size() ? s.size() : 1 ) ) ), n( s.size() )
+         : n( s.size() )
       {
+         if( buf_mode == 0 ) {
+            p = static_cast< char* >( malloc( s.size() ? s.size() : 1 ) );
+            heap = true;
+         }
+         else {
+            GuardRegion& g = guard_region();
+            memset( g.base + g.page, 0x5a, g.page );
+            p = ( buf_mode == 1 ) ? g.base + 2 * g.page - n : g.base + g.page;
+         }
          memcpy( p, s.data(), s.size() );
       }
-      ~Buf() { free( p ); }
+      ~Buf()
+      {
+         if( heap ) free( p );
+      }
       Buf( const Buf& ) = delete;
    };
+   // SIGSEGV / SIGBUS inside the implementation run = access outside the buffer (guard page)
+   inline sigjmp_buf fault_jmp;
+   inline volatile sig_atomic_t fault_armed = 0;
+   inline void fault_handler( int )
+   {
+      if( fault_armed ) {
+         fault_armed = 0;
+         siglongjmp( fault_jmp, 1 );
+      }
+      _exit( 99 );
+   }
+   inline void install_fault_handler()
+   {
+      struct sigaction sa;
+      memset( &sa, 0, sizeof sa );
+      sa.sa_handler = fault_handler;
+      sa.sa_flags = SA_NODEFER;
+      sigaction( SIGSEGV, &sa, nullptr );
+      sigaction( SIGBUS, &sa, nullptr );
+   }
 
    // judge the implementation's outcome against the reference outcome; "" = agrees
    inline std::string judge( const R::Res& o, const Real& r, int M, const char* data, int eol_kind )
